@@ -40,6 +40,9 @@ def _worker(behs):
         n += 1
         try:
             div = subreplay.run(b, i)
+            if b["setup"] in ("not-subscription", "multi-root"):      # refusals are cheap: both gamma variants of the set-up
+                n += 1
+                div = div + subreplay.run(b, i + 1)
         except BaseException as e:      # (a CancelledError that escapes the implementation is a BaseException)
             div = [("sub/harness-exception/%s" % type(e).__name__, repr(e))]
         for key, detail in div:
